@@ -256,6 +256,8 @@ def _literal_load(members, d, strict):  # noqa: C901, PLR0912
         if both_boolint:
             if strict:
                 continue           # documented: strict distinguishes equal bool and int
+            if any(type(x) is type(d) and x == d for x in members if not isinstance(x, Enum)):
+                continue           # the datum itself is listed: it is the value that is loaded
             allowed.append(d)      # documented: lax considers them the same value
             allowed.append(m)
             continue
